@@ -29,6 +29,26 @@ def fmt_num(x, style="plain"):
         return r[1:] if r.startswith("0.") else r
     if style == "traildot":  # 3.
         return str(int(x)) + "." if x == int(x) else repr(x)
+    if style in ("dotexp", "dotExp"):  # 3.e2   5.e-1   3.E+02 : integer mantissa with a bare decimal point and an exponent
+        if x == 0:
+            return "0.e0" if style == "dotexp" else "0.E+00"
+        for k in (3, 2, 1, 0, -1, -2, -3, -4, -5, -6, -9, -10):
+            m = x / 10.0 ** k
+            if m == int(m) and abs(m) < 1e15:
+                t = f"{int(m)}.e{k}" if style == "dotexp" else f"{int(m)}.E{k:+03d}"
+                if float(t) == x:
+                    return t
+        return repr(x)
+    if style == "Eupper":  # 3E0  1.5E2
+        t = f"{x:.17g}"
+        t = t.upper() if "e" in t else t + "E0"
+        return t if float(t) == x else repr(x)
+    if style == "expsigned":  # 30.0e-01  0.25e+01
+        for k in (-1, 1, -2, 2):
+            t = f"{x / 10.0 ** k!r}e{k:+03d}"
+            if "e" not in repr(x / 10.0 ** k) and float(t) == x:
+                return t
+        return repr(x)
     raise ValueError(style)
 
 
@@ -253,7 +273,7 @@ class Dist:
 
     def text(self):
         sep = ", " if self.style != "tight" else ","
-        st = self.style if self.style in ("plain", "float", "exp") else "plain"
+        st = self.style if self.style in ("plain", "float", "exp", "dotexp", "dotExp", "Eupper", "expsigned") else "plain"
         return f"{self.family}(" + sep.join(fmt_num(p, st) for p in self.params) + ")"
 
     def to_json(self):
@@ -350,7 +370,7 @@ class Mol:
 
 def mix_text(mix, style="plain"):
     kind, x = mix
-    st = style if style in ("plain", "float", "exp", "nolead") else "plain"
+    st = style if style in ("plain", "float", "exp", "nolead", "dotexp", "dotExp", "Eupper", "expsigned") else "plain"
     return ".|" + fmt_num(x, st) + ("%" if kind == "pct" else "") + "|"
 
 
